@@ -43,6 +43,21 @@ Theorem C14_staggered_invalidation : forall s, kd s = KPF ->
 Proof. intros. apply staggered_invalidation; [exact C14_table_ok | assumption]. Qed.
 Print Assumptions C14_staggered_invalidation.
 
+(* the same statement for all simulations of the world at once, in the executable form the correspondence harness
+   evaluates (`trace`): on the table of the CURRENT source no op list ever produces a stale simulation *)
+Theorem C14_no_stale_sims : forall ops, stale_sims gen_table (run gen_table ops w0) = [].
+Proof. exact (no_stale_sims gen_table C14_table_ok). Qed.
+Print Assumptions C14_no_stale_sims.
+
+Theorem C14_trace_never_stale : forall ops pre, Forall (fun x => snd x = []) (trace gen_table ops (run gen_table pre w0)).
+Proof. exact (trace_never_stale gen_table C14_table_ok). Qed.
+Print Assumptions C14_trace_never_stale.
+
+(* non-vacuity on the long history that uses every op constructor (long_history_covers_every_op) *)
+Example C14_long_history_fresh : stale_sims gen_table (run gen_table long_history w0) = [] /\
+                                 length (sims (run gen_table long_history w0)) = 4 /\ covers_all_ops long_history = true.
+Proof. vm_compute. repeat split; reflexivity. Qed.
+
 (* non-vacuity: the hypotheses of the theorems are met by concrete runs *)
 Example C14_nonvacuous :
   exists s, nth_error (sims (run gen_table [ONewSim KLin 0; OGetK 0 false; OMeshMove 0 MCoordSet; ONewSim KPF 0; OSolve 1] w0)) 1 = Some s
